@@ -33,6 +33,18 @@ static time_t call_out_time = 0;
 static int num_call;
 static int unique = 0;
 
+/*
+ * call_out() sweeps the slot of second call_out_time + 1 and only increments
+ * call_out_time when that slot is done (it "increments at the end"). While the
+ * callbacks of that slot run, the slot has already had its turn of the wheel:
+ * its head was decremented and the entries that stay in it wait for the next
+ * one. new_call_out() and time_left() are called from those callbacks and must
+ * count turns from the second that was really swept, or an entry of that slot
+ * is one turn (CALLOUT_CYCLE_SIZE seconds) off.
+ */
+static int in_sweep = 0;
+#define SWEPT_TIME	(call_out_time + in_sweep)
+
 static void free_call (pending_call_t *);
 static void free_called_call (pending_call_t *);
 void remove_all_call_out (object_t *);
@@ -127,7 +139,7 @@ int new_call_out (object_t * ob, svalue_t * fun, time_t delay, int num_args, sva
 
   /* Find out which slot this one fits in */
   tm = (delay + current_time) & (CALLOUT_CYCLE_SIZE - 1);
-  delay = (1 + (delay + current_time - call_out_time - 1) / CALLOUT_CYCLE_SIZE);
+  delay = (1 + (delay + current_time - SWEPT_TIME - 1) / CALLOUT_CYCLE_SIZE);
 
   for (copp = &call_list[tm]; *copp; copp = &(*copp)->next)
     {
@@ -174,6 +186,7 @@ call_out ()
       free_called_call (cop);
       cop = 0;
     }
+  in_sweep = 0;
   if (!call_out_time)
     call_out_time = current_time;
   save_context (&econ);
@@ -183,6 +196,7 @@ call_out ()
       /* we increment at the end in case we are interrupted by errors,
          but we need to use call_out_time + 1 here. */
       tm = (call_out_time + 1) & (CALLOUT_CYCLE_SIZE - 1);
+      in_sweep = 1;		/* this slot has had its turn, see SWEPT_TIME */
       if (call_list[tm] && --call_list[tm]->delta == 0)
         do
           {
@@ -258,6 +272,7 @@ call_out ()
               }
           }
         while (call_list[tm] && call_list[tm]->delta == 0);
+      in_sweep = 0;
       call_out_time++;
     }
 
@@ -267,16 +282,17 @@ call_out ()
 
 
 static time_t time_left (int slot, time_t delay) {
-  int current_slot = call_out_time & (CALLOUT_CYCLE_SIZE - 1);
+  time_t swept_time = SWEPT_TIME;
+  int current_slot = swept_time & (CALLOUT_CYCLE_SIZE - 1);
   if (slot > current_slot)
     {
       return (delay - 1) * CALLOUT_CYCLE_SIZE + (slot - current_slot) +
-        call_out_time - current_time;
+        swept_time - current_time;
     }
   else
     {
       return delay * CALLOUT_CYCLE_SIZE + (slot - current_slot) +
-        call_out_time - current_time;
+        swept_time - current_time;
     }
 }
 
@@ -403,7 +419,7 @@ print_call_out_usage (outbuffer_t * ob, int verbose)
  */
 array_t* get_all_call_outs () {
   time_t delay;
-  int i, j, tm;
+  int i, j;
   pending_call_t *cop;
   array_t *v;
 
@@ -413,7 +429,6 @@ array_t* get_all_call_outs () {
         i++;
 
   v = allocate_empty_array (i);
-  tm = call_out_time & (CALLOUT_CYCLE_SIZE - 1);
 
   for (i = 0, j = 0; j < CALLOUT_CYCLE_SIZE; j++)
     {
@@ -445,18 +460,7 @@ array_t* get_all_call_outs () {
               vv->item[1].u.string = make_shared_string ("<function>");
             }
           vv->item[2].type = T_NUMBER;
-          if (j > tm)
-            {
-              vv->item[2].u.number =
-                (delay - 1) * CALLOUT_CYCLE_SIZE + (j - tm) + call_out_time -
-                current_time;
-            }
-          else
-            {
-              vv->item[2].u.number =
-                delay * CALLOUT_CYCLE_SIZE + (j - tm) + call_out_time -
-                current_time;
-            }
+          vv->item[2].u.number = time_left (j, delay);
 
           v->item[i].type = T_ARRAY;
           v->item[i++].u.arr = vv;	/* Ref count is already 1 */
